@@ -1,4 +1,4 @@
-From Coq Require Import ZArith List Bool Lia.
+From Coq Require Import ZArith List Bool Lia ZifyBool.
 From PV Require Import Util.ListSet Util.Sumset BLS.Model BLS.Den BLS.Proofs BLS.ProofsMod BLS.ProofsExp
   Layout.Types Layout.Spec Layout.Proofs.
 Import ListNotations.
@@ -70,14 +70,20 @@ Proof. unfold spec_prefix. destruct (least_width_values (fun w => n <? 2 ^ w)) a
 Lemma spec_tag_pos n : 8 <= spec_tag n /\ (8 | spec_tag n).
 Proof. unfold spec_tag. destruct (least_width_values (fun w => n <=? 2 ^ w)) as [<-|[<-|[<-|[<-|[]]]]]; split; try lia; [exists 1|exists 2|exists 4|exists 8]; lia. Qed.
 
+Lemma union_agg_eq fs : 2 <= Z.of_nat (length fs) -> bitlen (Z.of_nat (length fs) - 1) <= 64 ->
+  union_agg bls align fs = Cat [Leaf [spec_tag (Z.of_nat (length fs))]; Uni (map (fun f => bls (snd f)) fs)].
+Proof.
+  intros H2 H3. destruct fs as [|f1 [|f2 r]]; [simpl in H2; lia|simpl in H2; lia|].
+  cbn [union_agg]. fold (union_tag_width (f1 :: f2 :: r)). rewrite union_tag_eq by lia. reflexivity.
+Qed.
+
 Lemma wf_bls t : wft t = true -> wf (bls t) /\ 0 <= omax (bls t).
 Proof.
   assert (forall t, wf (bls t) -> wf (bls t) /\ 0 <= omax (bls t)) as K.
   { intros t0 W. split; auto. destruct (omax_ok _ W) as [D _]. eapply Den_nonneg; eauto. }
   induction t as [p|w|e n IH|e n IH|nm fs IH|nm fs IH|i ext IH] using ty_ind'; cbn [wft]; intros H; apply K; cbn [bls].
   - cbn [wf]. split; [discriminate|]. constructor; [|constructor].
-    destruct p; simpl in *; try lia; repeat (apply andb_true_iff in H; destruct H as [H ?]); try lia.
-    apply orb_true_iff in H. destruct H as [H|H]; [apply orb_true_iff in H; destruct H as [H|H]|]; lia.
+    destruct p; simpl in H |- *; lia.
   - cbn [wf]. apply andb_true_iff in H. split; [discriminate|]. constructor; [lia|constructor].
   - apply andb_true_iff in H. destruct H as [H1 H2]. cbn [wf]. split; [apply IH; auto|lia].
   - apply andb_true_iff in H. destruct H as [H H3]. apply andb_true_iff in H. destruct H as [H1 H2].
@@ -95,13 +101,12 @@ Proof.
     apply andb_true_iff in H. destruct H as [H H3]. apply andb_true_iff in H. destruct H as [H H2].
     assert (Forall (fun f => wf (bls (snd f))) fs) as Hf.
     { unfold all_fields_ok in H. rewrite forallb_forall in H. rewrite Forall_forall in *. intros f Hin. apply IH; auto. }
-    destruct fs as [|f1 [|f2 r]]; [simpl in H2; lia|simpl in H2; lia|].
-    cbn [union_agg]. fold (union_tag_width (f1 :: f2 :: r)). rewrite union_tag_eq by lia.
-    cbn [wf allw]. split; [discriminate|]. repeat split.
-    + discriminate.
-    + constructor; [|constructor]. pose proof (spec_tag_pos (Z.of_nat (length (f1 :: f2 :: r)))). lia.
-    + discriminate.
-    + apply allw_Forall. apply Forall_forall. intros c Hc. apply in_map_iff in Hc. destruct Hc as (f & <- & Hin).
+    rewrite union_agg_eq by lia.
+    assert (fs <> []) as Hne by (destruct fs; [simpl in H2; lia|discriminate]).
+    cbn [wf allw]. split; [discriminate|]. split; [|split; [|exact I]].
+    + split; [discriminate|]. constructor; [|constructor]. pose proof (spec_tag_pos (Z.of_nat (length fs))). lia.
+    + split; [destruct fs; [congruence|discriminate]|].
+      apply allw_Forall. apply Forall_forall. intros c Hc. apply in_map_iff in Hc. destruct Hc as (f & <- & Hin).
       rewrite Forall_forall in Hf. auto.
   - repeat (apply andb_true_iff in H; destruct H as [H ?]).
     destruct (IH H) as [Wi Mi]. pose proof (align_pos i).
@@ -164,10 +169,7 @@ Proof.
     { unfold all_fields_ok in H. rewrite forallb_forall in H. rewrite Forall_forall in *. intros f Hin. apply IH; auto. }
     assert (forall l, any1 Den (map (fun f => bls (snd f)) fs) l <-> variant_ok LenSpec fs l) as Hv.
     { clear - Hf. induction Hf as [|f r Hf1 _ IHr]; intros l; cbn [map any1 variant_ok]; [tauto|]. rewrite Hf1, IHr. tauto. }
-    assert (union_agg bls align fs = Cat [Leaf [spec_tag (Z.of_nat (length fs))]; Uni (map (fun f => bls (snd f)) fs)]) as E.
-    { destruct fs as [|f1 [|f2 r]]; [simpl in H2; lia|simpl in H2; lia|].
-      cbn [union_agg]. fold (union_tag_width (f1 :: f2 :: r)). rewrite union_tag_eq by lia. reflexivity. }
-    rewrite E. split.
+    rewrite union_agg_eq by lia. split.
     + intros (y & Dy & ->). apply Den_cat2 in Dy. destruct Dy as (a & b & Da & Db & ->). apply Den_leaf1 in Da. subst a.
       exists b. split; auto. apply Hv. exact Db.
     + intros (l & Vl & ->). exists (spec_tag (Z.of_nat (length fs)) + l). split; auto. apply Den_cat2.
